@@ -126,7 +126,7 @@ class QuicConn:
             g = self.gen[d] if gen is None else gen
             while len(self.app[d]) <= g:
                 self.app[d].append(self.app[d][-1].next_gen())
-            raw = Q.short_packet(self.app[d][g], dcid, n, ln, frames, phase=g & 1)
+            raw = Q.short_packet(self.app[d][g], dcid, n, ln, frames, phase=g & 1, fixed=kw.get("fixed", 1), spin=kw.get("spin", 0))
         return raw, dict(level=level, pn=n, pnlen=ln, dcid=dcid, gen=self.gen[d] if gen is None else gen)
 
     def send(self, d, parts, note=""):
